@@ -273,3 +273,85 @@ func TestC09Counter(t *testing.T)  { testC09(t, sim.Counter) }
 func TestC09Map(t *testing.T)      { testC09(t, sim.Map) }
 func TestC09List(t *testing.T)     { testC09(t, sim.List) }
 func TestC09Document(t *testing.T) { testC09(t, sim.Document) }
+
+// TestC09Backlog: however many operations are waiting to be pushed, every pack the client builds
+// carries whole transaction units only.
+func TestC09Backlog(t *testing.T) {
+	col := stats.New("C09", t.Name(),
+		"one replica (drawn kind) piles up a backlog of 250 / ~1024 / ~2048 plain operations, commits a transaction of 3-8 operations, adds 0-40 more operations and possibly another transaction; the harness then plays the server's acknowledgements: it takes pack after pack (CreatePushPullPack, then the checkpoint the pack claims is acknowledged) until nothing is left; "+
+			"oracle: in every pack every TRANSACTION header is followed, in the same pack, by the operations it announces (a committed transaction is pushed as one contiguous unit that announces its own length), sequence numbers are consecutive across packs, and the packs together are exactly the emitted operations; "+
+			"non-trivial = the backlog exceeds 1000 operations; distinct = the drawn sizes")
+	checkProp(t, "C09", col, func(c *caseCtx) {
+		rt := c.rt
+		kind := kindFromDraw(rt)
+		idseed := rapid.Uint64Range(1, 1<<40).Draw(rt, "idseed")
+		sim.SeedIDs(idseed)
+		w := sim.NewWorld(kind, 1, 1)
+		dt := w.Reps[0].DT
+		n := rapid.SampledFrom([]int{250, 1015, 1019, 1020, 1023, 1030, 2040, 2045}).Draw(rt, "backlog")
+		k := rapid.IntRange(3, 8).Draw(rt, "tx")
+		m := rapid.IntRange(0, 40).Draw(rt, "after")
+		second := rapid.Bool().Draw(rt, "second_tx")
+		c.j.Header = map[string]interface{}{"kind": kind, "backlog": n, "tx": k, "after": m, "second_tx": second, "id_seed": idseed}
+		for i := 0; i < n; i++ {
+			sim.Exec(kind, dt, c06CheapCall(kind, i))
+		}
+		mkTx := func(base int) sim.Tx {
+			tx := sim.Tx{Tag: "t", FailAt: -1}
+			for i := 0; i < k; i++ {
+				tx.Calls = append(tx.Calls, c06CheapCall(kind, base+i))
+			}
+			return tx
+		}
+		if _, err, pan := sim.ExecTx(kind, dt, mkTx(10000)); err != nil || pan != nil {
+			c.failf("transaction after a backlog of %d operations: err=%v panic=%v", n, err, pan)
+		}
+		for i := 0; i < m; i++ {
+			sim.Exec(kind, dt, c06CheapCall(kind, 20000+i))
+		}
+		if second {
+			if _, err, pan := sim.ExecTx(kind, dt, mkTx(30000)); err != nil || pan != nil {
+				c.failf("second transaction: err=%v panic=%v", err, pan)
+			}
+		}
+		total := 1 + n + (k + 1) + m // creation snapshot, plain operations, header + body, plain operations
+		if second {
+			total += k + 1
+		}
+		var next uint64 = 1
+		packs, got := 0, 0
+		for {
+			pack := dt.CreatePushPullPack()
+			ops := pack.Operations
+			if len(ops) == 0 {
+				break
+			}
+			packs++
+			if packs > 64 {
+				c.failf("the backlog does not drain: %d packs built, %d of %d operations handed out", packs, got, total)
+			}
+			for i := 0; i < len(ops); i++ {
+				if ops[i].ID.Seq != next {
+					c.failf("pack %d: operation %d has sequence number %d, expected %d", packs, i, ops[i].ID.Seq, next)
+				}
+				next++
+				if ops[i].OpType == model.TypeOfOperation_TRANSACTION {
+					var hb txHeader
+					if err := json.Unmarshal(ops[i].Body, &hb); err != nil {
+						c.failf("pack %d: undecodable transaction header: %v", packs, err)
+					}
+					if i+int(hb.NumOfOps) > len(ops) {
+						c.failf("pack %d (%d operations, %d were pending): the transaction header at position %d announces %d operations but only %d of them are in this pack - a committed transaction must be pushed as one unit", packs, len(ops), total-got, i, hb.NumOfOps, len(ops)-i)
+					}
+				}
+			}
+			got += len(ops)
+			// the server acknowledges what the pack claims
+			dt.SetCheckPoint(pack.CheckPoint.Sseq, pack.CheckPoint.Cseq)
+		}
+		if got != total {
+			c.failf("%d operations were emitted, the packs carried %d", total, got)
+		}
+		col.Case(n > 1000, fmt.Sprint(kind, n, k, m, second), []string{"kind=" + string(kind), fmt.Sprintf("backlog=%d", n), fmt.Sprintf("packs=%d", packs)}, func() interface{} { return c.j.Header })
+	})
+}
